@@ -107,8 +107,8 @@ def expected(call):
             raise NotCovered("flip variable out of range")
         fa, fb, fc = fn_of(a), fn_of(b), fn_of(c)
         return nv, lambda v: conn[4 * int(fa(flip(flip(v, xo), x1))) + 2 * int(fb(flip(flip(v, xo), x2))) + int(fc(flip(flip(v, xo), x3)))]
-    if op in ("var_exists", "var_for_all", "exists", "for_all", "bin_exists", "bin_for_all", "nested", "project", "var_project"):
-        op = {"project": "exists", "var_project": "var_exists"}.get(op, op)      # the deprecated aliases
+    if op in ("var_exists", "var_for_all", "exists", "for_all", "bin_exists", "bin_for_all", "nested", "nested_re", "project", "var_project"):
+        op = {"project": "exists", "var_project": "var_exists", "nested_re": "nested"}.get(op, op)      # aliases / re-entrant form
         if op in ("var_exists", "var_for_all"):
             a = B(1)
             nv = same_nv(a)
